@@ -17,11 +17,13 @@ def run(tier, seed):
     n = 1500 if tier == "quick" else 40000
     jobs = [aclhist.make_history(rng, t, WEIGHTS, nops=rng.randint(2, 10 if tier == "quick" else 25)) for t in range(1, n + 1)]
     aclhist.fill_permutations(rng, jobs)
+    tjobs, gen = aclhist.tlc_histories(tier, seed, len(jobs) + 1, want=None, cap=1500 if tier == "quick" else 20000)
+    jobs += [j for j in tjobs if j["lines"]]
     return aclhist.run_histories("C17", jobs, tier, mcs,
                                  "operations drawn from the whole alphabet (platform, switches, resequence, group/ungroup, sort/"
                                  "reverse/permute/insert/append/pop, copy, export-import, re-parse, shading, shadow removal, port "
                                  "splitting, tcam, notes), 2..25 per history",
-                                 owners={"C02", "C04", "C10", "C11", "C15", "C16", "C19"})
+                                 owners={"C02", "C04", "C10", "C11", "C15", "C16", "C19"}, gens=[gen])
 
 
 def replay(path):
